@@ -29,6 +29,23 @@ class SimBootTarget:
         self.cmds = []           # every command (t, tid, cmd, raw)
         self.out_of_range = []
         self.forced = None       # optional list of outcomes for flash-write commands (directed sweep)
+        self.link = None
+        self.chatter_sent = 0
+
+    def chatter(self, kind, tid):
+        """An unrelated downlink packet: console text, a late info reply, or the other target's flash-write reply."""
+        if self.link is None:
+            return
+        other = 0xFE if tid == 0xFF else 0xFF
+        self.chatter_sent += 1
+        if kind == 0:
+            self.link.downlink(0x00, b'SYS: still alive\n')
+        elif kind == 1:
+            self.link.downlink(0xFF, bytes([tid, 0x10]) + bytes(21))
+        elif kind == 2:
+            self.link.downlink(0xFF, bytes([other, 0x18, 1, 0]))
+        else:
+            self.link.downlink(0xFF, bytes([tid, 0x1C, 0, 0, 0, 0]) + bytes(8))
 
     def link_connected(self, link):
         pass
@@ -37,6 +54,7 @@ class SimBootTarget:
         pass
 
     def receive(self, link, header, data):
+        self.link = link
         if header != 0xFF or len(data) < 2:
             return
         tid, cmd = data[0], data[1]
@@ -57,7 +75,7 @@ class SimBootTarget:
             payload = bytes(data[6:])
             self.loads.append((self.sim.now, tid, page, addr, payload, len(data)))
             if page >= g['buffer_pages'] or addr + len(payload) > g['page_size']:
-                self.out_of_range.append(('buffer', page, addr, len(payload)))
+                self.out_of_range.append(('buffer', page, addr, len(payload), tid))
                 return
             g['buffers'][page][addr:addr + len(payload)] = payload
         elif cmd == 0x18:
@@ -75,7 +93,7 @@ class SimBootTarget:
                 link.downlink(0xFF, bytes([tid, 0x18, 0, 5]))
                 return
             if fpage + n > g['flash_pages'] or bpage + n > g['buffer_pages']:
-                self.out_of_range.append(('flash', fpage, n))
+                self.out_of_range.append(('flash', fpage, n, tid))
                 link.downlink(0xFF, bytes([tid, 0x18, 0, 1]))
                 return
             ps = g['page_size']
